@@ -353,6 +353,26 @@ fn emit_block(a: &mut Asm, rng: &mut Rng, o: &ProgOpts, funcs: &[usize], n: u64,
                 emit_block(a, rng, o, funcs, nb, depth + 1);
                 a.bind(l);
             }
+            12 if depth < 2 && !o.reserved.contains(&1) => {
+                // jrcxz / jecxz over a block: RCX = 0, non-zero, or zero only in its low half
+                match rng.below(4) {
+                    0 => a.b.extend_from_slice(&[0x31, 0xc9]),                                      // xor ecx,ecx
+                    1 => a.b.extend_from_slice(&[0xb9, 1, 0, 0, 0]),                                // mov ecx,1
+                    2 => a.b.extend_from_slice(&[0x48, 0xb9, 0, 0, 0, 0, 1, 0, 0, 0]),              // mov rcx,1<<32
+                    _ => {}
+                }
+                let l = a.label();
+                if rng.below(2) == 0 {
+                    a.b.push(0x67);
+                }
+                a.b.push(0xe3);
+                a.fixups.push((a.b.len(), 1, l));
+                a.b.push(0);
+                a.shape.push('z');
+                let nb = rng.range(1, 3);
+                emit_block(a, rng, o, funcs, nb, depth + 1);
+                a.bind(l);
+            }
             2 if o.loops && depth < 2 => {
                 // counted loop: mov ecx, N ; L: body ; dec ecx ; jne L   (rcx is reserved inside the body)
                 let nloop = rng.range(1, 5) as u32;
